@@ -200,7 +200,11 @@ def make_selection_body(grids, L, rmax, images, alphas, prefix):
         k = len(x)
         ys = value_vectors(k, False)
         n_raw = n_ok = 0
-        for r in range(2, rmax + 1):
+        explicit = mode in ("values", "indices")
+        if explicit and iname not in ("id", "x-3", "x/2^30"):
+            ctx.note("explicit_modes_skipped_for_image")      # explicit designation is enumerated on three images only
+            return
+        for r in range(2, (min(rmax, 3) if explicit else rmax) + 1):
             for pos in itertools.combinations(lat, r):
                 xr = [img(v) for v in pos]
                 if mode in ("closest", "lower", "higher"):
